@@ -11,7 +11,6 @@ use std::path::Path;
 
 use crate::errors::GeneratorOrIOError;
 use crate::generate::Generator;
-use crate::macros::{invariant, optionally_unsafe};
 use crate::params::ConstrainedFuzzyHashType;
 use crate::{GeneratorType, Tlsh};
 
@@ -44,9 +43,9 @@ fn hash_stream_common<R: Read, G: GeneratorType>(
         if len == 0 {
             break;
         }
-        optionally_unsafe! {
-            invariant!(len <= buffer.len());
-        }
+        // `Read` is a safe trait: a (buggy or hostile) reader may report more
+        // bytes than the buffer holds.  That must not be handed to the
+        // optimizer as an assumption; the slice below bounds-checks it.
         generator.update(&buffer[0..len]);
     }
     Ok(generator.finalize()?)
